@@ -178,7 +178,7 @@ class Check:
             cmd.append("-race")
         if tags:
             cmd += ["-tags", ",".join(tags)]
-        if os.environ.get("VERIF_COVER"):
+        if os.environ.get("VERIF_COVER") and not race and not tags:
             # development aid (bin/coverage): which statements of the library do the drivers execute at all?
             cmd += ["-cover", "-coverpkg=./...,github.com/jub0bs/cors/..."]
         cmd.append(".")
